@@ -117,3 +117,9 @@ func (this *Dataset) VerifDropClients(nodeId uint64) {
 	delete(this.searchClients, nodeId)
 	this.searchClientsMu.Unlock()
 }
+
+// VerifForget abandons the partition's raft group without stopping it cleanly (simulated crash).
+func (this *Dataset) VerifForget(i int) {
+	p := this.partitions[i]
+	p.raftTransport.VerifRemoveGroup(p.id)
+}
